@@ -241,15 +241,16 @@ PROPS["C07"] = dict(
 )
 
 PROPS["C06"] = dict(
-    modules=["DdoModel.Props.C06", "DdoModel.Props.C07"],
-    theorems=["Ddo.C06.relaxed_ub", "Ddo.C06.relaxed_ub_static", "Ddo.C06.CounterA.counter", "Ddo.C06.CounterB.counter",
+    modules=["DdoModel.Props.C06", "DdoModel.Props.C07", "DdoModel.Examples.KnapsackModel"],
+    theorems=["Ddo.C06.relaxed_ub", "Ddo.C06.relaxed_ub_static", "Ddo.C06.relaxed_ub_rel_dom", "Ddo.C06.relaxed_ub_rel",
+              "Ddo.Examples.KnapsackModel.wfRel", "Ddo.Examples.KnapsackModel.rubAdmissible", "Ddo.Examples.KnapsackModel.H_root", "Ddo.Examples.KnapsackModel.knapsack_relaxed_ub", "Ddo.C06.CounterA.counter", "Ddo.C06.CounterB.counter",
               "Ddo.C07.exact_nodes_reachable"],
     stated_not_proved=["relaxed_exact_truthful (a relaxed diagram that declares itself exact has the sub-problem optimum as best exact value) and feasibility of best_exact_solution through the exact-best-path case: evaluated by phi, not proved",
                        "pooled diagram; compile_history_independent holds by construction of the model (a pure function of the input) and is watched by running 0..3 earlier compilations on the same object"],
     level_text="relaxed_ub: for the clean diagram model (LEL and frontier), any well-formed model (Potential, RubOk, MergeOk in potential form), any width >= 1 and any incumbent, a relaxed compilation in isolation reports a best value >= the optimum of the sub-problem whenever that optimum beats the incumbent - proved by a coverage invariant over the whole compilation loop, merge (fresh and recycled merged node) and rough-bound pruning included (1440 lines of Lean), with a concrete non-vacuity instance in which a merge really happens. Two extra hypotheses turned out to be necessary and are proved necessary by counter-examples in Lean: AttMerge (the variable is selected by next_variable *before* the layer is squashed, so it must also suit the merged state - automatic for static variable orders: relaxed_ub_static) and o <= isize::MAX or lb < isize::MAX. The exactness-claim clauses are evaluated against the exact value-to-go on every explored compilation (phi), incl. an unobserved history of earlier compilations on the same object.",
-    level_note="Partial: the truthful-exactness clause is evaluated (phi), not proved; pooled model by correspondence + phi only. Hypotheses: Potential / RubOk / MergeOk / AttMerge, NoClamp (no isize saturation on path values), isolation (EmptyCache, no dominance rule). MddCover.lean was produced by a delegated proof session and is checked by the same lake build / axiom audit.",
+    level_note="Partial: the truthful-exactness clause is evaluated (phi), not proved; pooled model by correspondence + phi only. Hypotheses: Potential / RubOk / MergeOk / AttMerge, NoClamp (no isize saturation on path values), isolation (EmptyCache, no dominance rule). The single proof is relaxed_ub_rel_dom: well-formedness relativised to a validity predicate V on (depth, state) pairs closed under transition and merge (WfRel), so that models whose state embeds the depth qualify; relaxed_ub (V := True) is a corollary. Instance: the model of the shipped knapsack example (state = (depth, capacity), merge = last maximal capacity, Dantzig rough bound with the f64 floor abstracted to the exact integer floor) satisfies WfRel whenever the items are sorted by ratio along `order`, weights are positive and profits non-negative (rubAdmissible: Dantzig admissibility fully proved; positive weights are necessary - capacity 0 with an item of weight 0 is a counter-example the Rust loop would stop on), hence knapsack_relaxed_ub: the example's relaxed diagram never reports less than the exhaustive optimum Knapsack.best. KnapsackModel.lean is a hand model of examples/knapsack/main.rs not yet tied pointwise to the example's code (the example binary as a whole is tied by C16's engine). MddCover.lean, WfRel.lean, KnapsackModel.lean were produced by a delegated proof session and are checked by the same lake build / axiom audit.",
     engines=MDD_ENGINES, trusted_base=MDD_TB,
-    assumptions=["well-formed model in potential form (DESIGN.md 5.2)", "NoClamp", "AttMerge (dynamic variable orders)"],
+    assumptions=["well-formed model in potential form (DESIGN.md 5.2), relativised to valid (depth, state) pairs", "NoClamp (on domain decisions)", "AttMerge / vstepMerge (dynamic variable orders)"],
     rule=MDD_RULE, trivial_tags=MDD_TRIVIAL,
 )
 
